@@ -198,10 +198,10 @@ Proof.
 Qed.
 
 (* ---- a limit of the position arithmetic that the model exposes (not reproducible on SQLite): positions
-        are not re-packed, so 32769 accepted prepends of the same child leave the chain unchanged but
-        push the position below the range of the SMALLINT column (PostgreSQL would refuse the edit) ---- *)
+        are never re-packed, so 32770 accepted prepends that merely swap the two children of a chain push
+        the positions below the range of the SMALLINT column (PostgreSQL would refuse the next edit) ---- *)
 Theorem position_width_exceeded :
-  snd (drift 32769) = true /\ children (fst (drift 32769)) 4 = [0%N] /\
-  map rpos (rows (fst (drift 32769))) = [(-32769)%Z].
+  snd (drift 16385) = true /\ children (fst (drift 16385)) 4 = [0%N; 1%N] /\
+  map rpos (rows (fst (drift 16385))) = [(-32769)%Z; (-32770)%Z].
 Proof. exact position_drift_p. Qed.
 Print Assumptions position_width_exceeded.
